@@ -14,6 +14,21 @@ def _shape(rng, lo=3, hi=14):
     return int(rng.integers(lo, hi + 1)), int(rng.integers(lo, hi + 1))
 
 
+def any_shape(rng, plain=0.7):
+    """(shape, kind): mostly the plain 3..14 squares/rectangles, else strongly elongated / 1xN / Nx1."""
+    r = rng.random()
+    if r < plain:
+        return _shape(rng), 'plain'
+    k = int(rng.integers(0, 4))
+    if k == 0:
+        return (1, int(rng.integers(2, 31))), '1xN'
+    if k == 1:
+        return (int(rng.integers(2, 31)), 1), 'Nx1'
+    if k == 2:
+        return (int(rng.integers(2, 4)), int(rng.integers(18, 41))), 'elongated_x'
+    return (int(rng.integers(18, 41)), int(rng.integers(2, 4))), 'elongated_y'
+
+
 def _label_values(rng, n, dtype, big=False):
     """n distinct positive label values with gaps, inside the dtype."""
     top = int(np.iinfo(dtype).max)
@@ -158,15 +173,52 @@ def border(rng, shape, dtype):
     return data
 
 
-def relayout(rng, data):
-    """Same values, different memory layout (Fortran order, strided view, transposed view)."""
-    k = int(rng.integers(0, 3))
-    if k == 0:
-        return np.asfortranarray(data), 'fortran'
-    if k == 1:
+def relayout(rng, data, kinds=None):
+    """Same values, different memory layout / container:
+    Fortran order, strided view, transposed view, offset view of a larger buffer, big-endian, read-only."""
+    kinds = kinds or ['fortran', 'strided_view', 'transposed_view', 'offset_view', 'big_endian', 'readonly']
+    kind = str(kinds[int(rng.integers(0, len(kinds)))])
+    if kind == 'fortran':
+        return np.asfortranarray(data), kind
+    if kind == 'strided_view':
         big = np.repeat(np.repeat(data, 2, axis=0), 2, axis=1)
-        return big[::2, ::2], 'strided_view'
-    return np.ascontiguousarray(data.T).T, 'transposed_view'
+        return big[::2, ::2], kind
+    if kind == 'transposed_view':
+        return np.ascontiguousarray(data.T).T, kind
+    if kind == 'offset_view':
+        big = np.ones((data.shape[0] + 3, data.shape[1] + 2), dtype=data.dtype)
+        big[2:2 + data.shape[0], 1:1 + data.shape[1]] = data
+        return big[2:2 + data.shape[0], 1:1 + data.shape[1]], kind
+    if kind == 'big_endian':
+        return data.astype(data.dtype.newbyteorder('>')), kind
+    out = data.copy()
+    out.flags.writeable = False
+    return out, kind
+
+
+def constant_label(rng, shape, dtype):
+    """One label covering every pixel (constant image)."""
+    v = _label_values(rng, 1, dtype)[0]
+    return np.full(shape, v, dtype=dtype)
+
+
+def border_only(rng, shape, dtype):
+    """Labels only on the outermost ring of pixels."""
+    ny, nx = shape
+    data = np.zeros(shape, dtype=dtype)
+    ring = [(0, x) for x in range(nx)] + [(ny - 1, x) for x in range(nx)] \
+        + [(y, 0) for y in range(ny)] + [(y, nx - 1) for y in range(ny)]
+    vals = _label_values(rng, int(rng.integers(1, 5)), dtype)
+    for v in vals:
+        y, x = ring[int(rng.integers(0, len(ring)))]
+        if data[y, x] == 0:
+            data[y, x] = v
+            if rng.random() < 0.5 and x + 1 < nx and y in (0, ny - 1) and data[y, x + 1] == 0:
+                data[y, x + 1] = v
+    if rng.random() < 0.3:                    # the whole ring is one label
+        for y, x in ring:
+            data[y, x] = vals[0]
+    return data
 
 
 def scene(rng, n=None):
